@@ -14,6 +14,7 @@ import (
 	"github.com/ChainSafe/sygma-relayer/comm/elector"
 	"github.com/ChainSafe/sygma-relayer/tss/ecdsa/common"
 	"github.com/ChainSafe/sygma-relayer/tss/message"
+	"github.com/ChainSafe/sygma-relayer/verifhook"
 	"github.com/binance-chain/tss-lib/tss"
 	"github.com/libp2p/go-libp2p/core/host"
 	"github.com/libp2p/go-libp2p/core/peer"
@@ -80,6 +81,7 @@ func (c *Coordinator) Execute(ctx context.Context, tssProcesses []TssProcess, re
 		return fmt.Errorf("process already pending")
 	}
 
+	verifhook.Yield(ctx, "tss.Coordinator.Execute:admit")
 	c.processLock.Lock()
 	c.pendingProcesses[sessionID] = true
 	c.processLock.Unlock()
